@@ -71,12 +71,15 @@ func c12Scenarios() []c12Scn {
 			out = append(out, c12Scn{reg, "sl", []string{"regB", "regB"}}, c12Scn{reg, "sl", []string{"regB", "regA2"}}, c12Scn{reg, "sl", []string{"regA2", "regA2"}})
 			if reg == "tools" {
 				out = append(out, c12Scn{reg, "sl", []string{"unregA", "regA2"}}, c12Scn{reg, "sl", []string{"unregA", "regB"}}, c12Scn{reg, "sl", []string{"unregA", "unregA"}})
+				// one call that unregisters two tools (the registry then starts from {a, b}): both go at one instant
+				out = append(out, c12Scn{reg, "sl", []string{"unregAB", "list"}}, c12Scn{reg, "sl", []string{"unregAB", "list", "list"}}, c12Scn{reg, "sl", []string{"unregAB", "regA2", "list"}})
 			}
 		}
 	}
 	// once each on the other server kinds (tools registry)
 	out = append(out, c12Scn{"tools", "ls", []string{"regA2", "list"}}, c12Scn{"tools", "ls", []string{"unregA", "callA"}})
 	out = append(out, c12Scn{"tools", "io", []string{"regA2", "list"}}, c12Scn{"tools", "io", []string{"unregA", "callA"}})
+	out = append(out, c12Scn{"tools", "ls", []string{"unregAB", "list"}}, c12Scn{"tools", "io", []string{"unregAB", "list"}})
 	out = append(out, c12Scn{"prompts", "ls", []string{"regB", "callA"}}, c12Scn{"resources", "io", []string{"regB", "callA"}})
 	return out
 }
@@ -195,6 +198,9 @@ func (w *c12World) do(op string, id int) string {
 	case "unregA":
 		w.unregister("a")
 		return "ok"
+	case "unregAB":
+		w.r.UnregisterTools("a", "b")
+		return "ok"
 	case "list":
 		method := map[string]string{"tools": "tools/list", "prompts": "prompts/list", "resources": "resources/list"}[w.reg]
 		f := w.rpc(id, method, "{}")
@@ -282,6 +288,17 @@ func c12Model(state map[string]string, order *[]string, reg, op string) string {
 			}
 		}
 		return "ok"
+	case "unregAB":
+		delete(state, "a")
+		delete(state, "b")
+		var keep []string
+		for _, n := range *order {
+			if n != "a" && n != "b" {
+				keep = append(keep, n)
+			}
+		}
+		*order = keep
+		return "ok"
 	case "list":
 		var items []string
 		for _, n := range *order {
@@ -343,6 +360,11 @@ func c12Linearizable(reg string, evs []*c12Event) bool {
 			used[i] = false
 		}
 		return false
+	}
+	for _, e := range evs {
+		if e.Op == "unregAB" {
+			return rec(0, map[string]string{"a": "h1", "b": "hb"}, []string{"a", "b"})
+		}
 	}
 	return rec(0, map[string]string{"a": "h1"}, []string{"a"})
 }
@@ -523,6 +545,12 @@ func c12Run(prefix []int, sc c12Scn) explore.Outcome {
 		r := NewRig(sc.Mode)
 		w := &c12World{r: r, reg: sc.Reg, clock: &hx.Counter{}}
 		w.register("a", "h1")
+		for _, op := range sc.Ops {
+			if op == "unregAB" {
+				w.register("b", "hb") // the batch finds both of its names
+				break
+			}
+		}
 		r.Start()
 		w.rp = NewRawPeer(r)
 		if err := w.rp.Handshake(); err != nil {
